@@ -10,11 +10,14 @@ import sys
 VERIF = os.path.dirname(os.path.dirname(os.path.abspath(__file__)))
 ids = [a for a in sys.argv[1:] if not a.startswith("--")] or sorted(os.listdir(os.path.join(VERIF, "seeded")))
 tiers = ["quick"] + (["thorough"] if "--thorough" in sys.argv else [])
-summary = []
-for sid in ids:
+jobs = int(sys.argv[sys.argv.index("--jobs") + 1]) if "--jobs" in sys.argv else 1
+ids = [a for a in ids if not a.isdigit()]
+
+
+def one(sid):
     d = os.path.join(VERIF, "seeded", sid)
     if not os.path.exists(os.path.join(d, "patch.diff")):
-        continue
+        return None
     meta = json.load(open(os.path.join(d, "meta.json")))
     pid = meta["property"]
     res = {"property": pid}
@@ -22,10 +25,21 @@ for sid in ids:
         r = subprocess.run([os.path.join(VERIF, "tools", "seedrun.py"), d, pid, "--tier", tier], capture_output=True, text=True)
         lines = r.stdout.splitlines()
         viol = [l for l in lines if l.startswith("VIOLATION")]
+        applies = "PATCH DOES NOT APPLY" not in r.stdout
         res[tier] = {"detected": bool(viol), "concrete_replay": bool(viol) and "no-failing-input-found" not in viol[0],
-                     "lines": [l[:300] for l in lines[:6]]}
+                     "patch_applies": applies, "lines": [l[:300] for l in lines if not l.startswith("KNOWN")][:6]}
         if viol:
             break
     json.dump(res, open(os.path.join(d, "result.json"), "w"), indent=1)
-    summary.append((sid, pid, {t: (res[t]["detected"], res[t]["concrete_replay"]) for t in res if t != "property"}))
-    print(sid, pid, summary[-1][2], flush=True)
+    out = (sid, pid, {t: (res[t]["detected"], res[t]["concrete_replay"]) if res[t]["patch_applies"] else ("n/a", "patch no longer applies on HEAD") for t in res if t != "property"})
+    print(*out, flush=True)
+    return out
+
+
+from concurrent.futures import ThreadPoolExecutor
+with ThreadPoolExecutor(max_workers=jobs) as ex:
+    summary = [r for r in ex.map(one, ids) if r]
+missed = [s for s in summary if not any(v[0] for v in s[2].values())]
+stale = [s for s in summary if any(v[0] == "n/a" for v in s[2].values())]
+print("patch no longer applies (superseded by a fix commit on the same lines):", [m[0] for m in stale])
+print("TOTAL %d detected %d missed %d: %s" % (len(summary), len(summary) - len(missed), len(missed), [m[0] for m in missed]))
